@@ -21,7 +21,7 @@ func init() {
 		Level: "model_checking",
 		Rule: "all route tables of 0..3 INCMP lines over targets {aa,bb,_,<,.,ee (a terminal node without HALT)} x selectors {1,2,*} (6175 tables) placed after the HALT of the entry node and of a depth-1 node, x all input histories up to depth 3 over {1,2,3,''} through engine.DefaultEngine (long-lived; persisted on mem in the thorough tier); " +
 			"reference = first-match routing rule + navigation table, compared after every request on position, the sequence of code fetches (exactly one move per request) and the invalid-input page; states = distinct (table, position) pairs; non-trivial = requests where a later line would also have matched",
-		Assumptions: []string{"'_' at the entry node is only required to report an error", "when a failing '<' line is followed by another line that also matches, either the catch node or that later line's move is accepted (the statement is ambiguous there)", "unmatched input at the catch node itself is not constrained"},
+		Assumptions: []string{"'_' at the entry node is only required to report an error", "unmatched input at the catch node itself is not constrained"},
 		Run:         c03Run,
 		Replay:      c03Replay,
 		MinItems:    3000,
@@ -127,19 +127,11 @@ func c03Route(table []c03Line, nav *ref.Nav, input string) (outs []c03Outcome, l
 		case ref.NavFailUndefined:
 			return []c03Outcome{{errOnly: true}}, laterAlsoMatches
 		case ref.NavFail:
+			// the first line whose selector equals the input DECIDES (statement), and what it decides here
+			// is a refused 'previous' on the first page, which counts as no match: the catch node. Later
+			// lines - a wildcard, the same selector again - are not consulted (instructions.texi: after a
+			// match consecutive INCMP are ignored until the next HALT).
 			outs = append(outs, toCatch())
-			// ambiguity: a later line that also matches may be taken instead
-			for _, l2 := range table[i+1:] {
-				if matches(l2) {
-					n2 := nav.Clone()
-					if r2, _ := n2.Move(l2.Target); r2 == ref.NavOK {
-						outs = append(outs, c03Outcome{nav: n2})
-					} else if r2 == ref.NavFailUndefined {
-						outs = append(outs, c03Outcome{errOnly: true})
-					}
-					break
-				}
-			}
 			return outs, laterAlsoMatches
 		}
 		return []c03Outcome{{nav: n}}, laterAlsoMatches
